@@ -364,6 +364,7 @@ class Ctx:
         self.notes: List[str] = []
         self.deadline: Optional[float] = None
         self.scale = 1.0
+        self.key_hits: Dict[str, int] = {}
 
     # --- budgets
     def budget(self, quick: int, thorough: int) -> int:
@@ -403,6 +404,11 @@ class Ctx:
     def prop_fail(self, what: str, replay: dict, finding_key: Optional[str] = None):
         """The property itself fails on the real code at a concrete input."""
         self.n_prop_fails += 1
+        if finding_key is not None:
+            # hits of one (possibly known) finding class must not crowd out other failures
+            self.key_hits[finding_key] = self.key_hits.get(finding_key, 0) + 1
+            if self.key_hits[finding_key] > 3:
+                return
         if len(self.prop_fails) < 200:
             self.prop_fails.append(dict(what=what, replay=replay, key=finding_key))
 
